@@ -86,7 +86,7 @@ class RobustModel(nn.Module):
             for w, r in zip(weight, R):
                 ni = r.numel() * w.shape[-1] / w.numel()
                 w = w.view(*w.shape, 1, 1) if r.shape[-1] == 1 else w
-                ws = w.view(-1, w.shape[-2], w.shape[-1]).split(1, 0)
+                ws = w.reshape(-1, w.shape[-2], w.shape[-1]).split(1, 0)
                 ws = [wsi.squeeze(0) for wsi in ws]
                 weight_diag += ws * int(ni)
             weight_diag = torch.block_diag(*weight_diag)
